@@ -54,7 +54,7 @@ def gen_case(R, index, tier):
         spec, st = GG.segment(R, kind)
         case.update({"stratum": "segment/%s" % kind, "seg": spec, "segclass": st})
     elif k < 0.72:
-        case.update({"stratum": "path", "path": GG.path(R, maxseg=4)})
+        case.update({"stratum": "path", "path": GG.path(R, maxseg=4), "linked_by_append": R.random() < 0.35})
     elif k < 0.78:
         case.update({"stratum": "subpath", "path": GG.path(R, nsub=R.randint(2, 3), maxseg=3), "which": R.randint(0, 2)})
     else:
@@ -211,6 +211,14 @@ def _run_segment(S, case, ctx, M, B):
 
 def _run_path(S, case, ctx, M, B):
     path = GG.build_path(S, case["path"])
+    if case.get("linked_by_append"):
+        # the same path assembled through append() from segments whose start is unknown: the library links them
+        segs = [copy(s_) for s_ in path]
+        path = S.Path()
+        for i, s_ in enumerate(segs):
+            if i > 0 and not isinstance(s_, S.Arc):
+                s_.start = None
+            path.append(s_)
     mc = case["mclass"]
     LM = S.Matrix(*M)
     olds = [_pts(seg, S, T5) for seg in path]
@@ -236,6 +244,14 @@ def _run_path(S, case, ctx, M, B):
         return
     if path.d(transformed=False) != d0 or not path.transform.is_identity():
         ctx.violation("operand-modified/path*matrix", "Path(%s) * Matrix%s changed the path" % (d0, M), monitor="path-times-matrix")
+        return
+    try:
+        # last, on the object itself (no copy in between: shared point objects would be mapped twice)
+        path *= LM
+        path.reify()
+        forms.append(("path*=M; reify() on the object itself", list(path)))
+    except Exception as e:
+        ctx.violation("path-times-matrix/raises/%s" % type(e).__name__, "Path(%s) *= Matrix%s; reify(): %r" % (d0, M, e), monitor="path-times-matrix")
         return
     for name, segs in forms:
         ctx.mon("path-times-matrix")
